@@ -306,6 +306,31 @@ def p_gateway( ctx ):
                     else:
                         res.bad( src, r, 'maintain_gateway: abandoned with results pending, the gateway is discarded while the decorated generator is still suspended',
                                  'the suspended generator holds the connection ( `with self.gateway as connection:` ): closing a connected gateway waits for that lock - reader.close() never returns, and the proxy is never usable again' )
+    # ... the connection IS closed whenever there is one, whatever the reason for discarding it: the close() call is guarded by nothing but
+    # "there is a gateway".  Left to the destructor when discarded for an exception, the connection lives on while another thread, already
+    # waiting for it, holds a reference: that thread then issues its request on the out-of-step session and is given the late reply
+    EXC = [ a.arg for a in cg.args.args ][1:]
+    for c_ in [ n.stmt for n in closes ]:
+        guards = [ a for a in src.ancestors( c_ ) if isinstance( a, ( ast.If, ast.IfExp, ast.While )) and any( a is x for x in ast.walk( cg )) ]
+        cond = [ g_ for g_ in guards if names_in( g_.test ) & set( EXC ) ]
+        if cond:
+            res.bad( src, cond[0], 'proxy.close_gateway closes the connection only when `%s`' % norm_text( cond[0].test ),
+                     'discarded for an exception, the gateway is merely forgotten: a second thread blocked on the connection keeps it alive, acquires it, sends its request on the faulted session and is paired with the first thread\'s late reply' )
+        else:
+            res.ok( src, c_, 'close_gateway closes the connection whatever the reason ( guards: %s )' % ( [ norm_text( g_.test ) for g_ in guards ] or 'none' ))
+    # ... and every wrapper of maintain_gateway runs the decorated method INSIDE `with inst:` only - "already open, so somebody else maintains
+    # it" is never true for a plain via.read(): the gateway stays open between calls, and a time-out during the second read would not discard it
+    if mg is not None:
+        for wf in [ f for f in ast.walk( mg ) if isinstance( f, ast.FunctionDef ) and f is not mg and f.args.args ]:
+            INST = wf.args.args[0].arg
+            FUNC = mg.args.args[-1].arg if mg.args.args else 'function'
+            for c_ in [ c for c in ast.walk( wf ) if isinstance( c, ast.Call ) and dotted( c.func ) == FUNC ]:
+                inside = any( isinstance( a, ast.With ) and any( dotted( it.context_expr ) == INST for it in a.items ) and any( a is x for x in ast.walk( wf )) for a in src.ancestors( c_ ))
+                if inside:
+                    res.ok( src, c_, 'maintain_gateway.%s calls the decorated method inside `with %s:`' % ( wf.name, INST ))
+                else:
+                    res.bad( src, c_, 'maintain_gateway.%s calls the decorated method outside `with %s:`' % ( wf.name, INST ),
+                             'an exception during that call ( time-out, cut connection ) never reaches proxy.__exit__: the faulted gateway is kept and the next read is paired with the late reply still in flight' )
     og = src.get( 'proxy.open_gateway' )
     w = [ x for x in ast.walk( og ) if isinstance( x, ast.With ) and any( txt( it.context_expr ) == 'self.gateway_lock' for it in x.items ) ]
     cr = [ i for i in ast.walk( og ) if isinstance( i, ast.If ) and pmatch( i.test, 'self.gateway is None' ) and pfind( i, 'self.gateway = self.gateway_class( **_k )' ) or
